@@ -9,7 +9,8 @@ from props import solver_common as sc
 
 ID = 'C02'
 PROPS_FILE = 'Props/C02.v'
-MODEL_FILES = ['Solver/Solver.v', 'Solver/SolverF.v', 'Solver/SolveAll.v', 'Solver/SolveAllSpan.v', 'Solver/SolveAllPeriod.v', 'Solver/SolveAllF.v']
+MODEL_FILES = ['Solver/Solver.v', 'Solver/SolverF.v', 'Solver/SolveAll.v', 'Solver/SolveAllSpan.v', 'Solver/SolveAllPeriod.v', 'Solver/SolveAllF.v',
+               'Solver/SolveAllHistF.v']
 K_NAME = ('K_solve_t (Solver.solve_t_M instantiated with PrimFloat vs BaseModel.solve_t / solve_period on scripted models; solve_period over '
           'every span type through SolveAll.solve_period_M with the modelled label lookup SolveAllSpan.locate_span / SolveAllPeriod.locate_qindex)')
 RULE = ('scripted models: exhaustive per-pass value sequences of one check variable up to length 3 over a palette that contains 0, tol, '
@@ -19,7 +20,9 @@ RULE = ('scripted models: exhaustive per-pass value sequences of one check varia
         'either side of both feasibility boundaries (all n<=4 x lags,leads<=2 x both spellings of t enumerated); solve_period(label) for every label '
         'specification (each label, an unknown label, PeriodIndex strings / year strings) on every span type of solver_common.SPAN_KIND (range, list, '
         'tuple, NumPy, pandas Index, PeriodIndex, spans with repeated and with falsy labels) x lengths 1..4 with tol-boundary scripts, compared with '
-        'solve_t(position) on a twin instance. Non-trivial = at least 2 passes executed, or '
+        'solve_t(position) on a twin instance; histories of 2..7 steps on ONE instance (earlier solves, copy(), reindex(same span), whole-series list and cell '
+        'assignments, re-solved periods, offsets with both spellings of t, models with and without lags / leads) with the statement evaluated at '
+        'every solve_t / solve_period step. Non-trivial = at least 2 passes executed, or '
         'stop exactly at k=min_iter or k=max_iter, or an exception path; distinct by hash of the whole case.')
 TRUSTED = ['scripted-model subclass harness/scripted.py (same script is the Coq oracle)']
 ASSUMPTIONS = ['_evaluate and the hooks modify only variable values (not status/iterations) — the shape of the model\'s oracles',
@@ -31,6 +34,8 @@ CASE_TIMEOUT = 20
 def impl(case):
     if case.get('kind') == 'sp':
         return sc.impl_solve(case)
+    if case.get('kind') == 'hist':
+        return sc.impl_hist(case)
     return sc.impl_solve_t(case)
 
 
@@ -134,7 +139,7 @@ def gen(rng, tier):
                             c['scripts'] = {str(p): {'before': [['set', 1, lib.fhex(3.0)]],
                                                      'passes': [[['set', 0, lib.fhex(1.0)]], [['set', 0, lib.fhex(1.0)]]]}}
                             fixed.append(c)
-    return fixed + cases + span_cases(rng, tier)
+    return fixed + cases + span_cases(rng, tier) + [sc.hist_case(rng, errs=('raise',) * 5 + ('ignore',)) for _ in range(400 if tier == 'quick' else 4000)]
 
 
 def span_cases(rng, tier):
@@ -143,7 +148,7 @@ def span_cases(rng, tier):
     pal = sc.PALETTE_FINITE
     reps = 1 if tier == 'quick' else 4
     for _ in range(reps):
-        for st in sc.SPAN_KIND:
+        for st in [t for t in sc.SPAN_KIND if t not in sc.RX_KIND]:
             for n in range(1, 5):
                 for spec in sc.label_specs(st, n)[1:]:
                     mx = rng.randint(0, 4)
@@ -163,7 +168,8 @@ def span_cases(rng, tier):
 
 
 def correspond(cases, obs, tag, tier):
-    one = [(i, c, o) for i, (c, o) in enumerate(zip(cases, obs)) if c.get('kind') != 'sp']
+    one = [(i, c, o) for i, (c, o) in enumerate(zip(cases, obs)) if c.get('kind') not in ('sp', 'hist')]
+    hist = [(i, c, o) for i, (c, o) in enumerate(zip(cases, obs)) if c.get('kind') == 'hist']
     sp = [(i, c, o) for i, (c, o) in enumerate(zip(cases, obs)) if c.get('kind') == 'sp']
     bad, errs = [], []
     if one:
@@ -174,12 +180,18 @@ def correspond(cases, obs, tag, tier):
         b, e = sc.correspond_solve([x[1] for x in sp], [x[2] for x in sp], tag + 'b')
         bad += [sp[j][0] for j in b]
         errs += e
+    if hist:
+        b, e = sc.correspond_hist([x[1] for x in hist], [x[2] for x in hist], tag + 'h')
+        bad += [hist[j][0] for j in b]
+        errs += e
     return sorted(bad), errs
 
 
 def explain(case, obs):
     if case.get('kind') == 'sp':
         return sc.explain_solve(case, obs)
+    if case.get('kind') == 'hist':
+        return sc.explain_hist(case, obs)
     return sc.explain_solve_t(case, obs)
 
 
@@ -196,7 +208,20 @@ def oracle(case, obs):
     """The C02 statement evaluated directly on the implementation's observations."""
     if case.get('kind') == 'sp':
         return oracle_sp(case, obs)
+    if case.get('kind') == 'hist':
+        return oracle_hist(case, obs)
     return oracle_t(case, obs)
+
+
+def oracle_hist(case, obs):
+    """The statement at EVERY solve_t / solve_period step of a history on one instance (earlier solves, copy(), reindex(same span),
+    whole-series and cell assignments precede the step): the state before the step plays the part of the start state."""
+    fails = []
+    for k, c1, o1 in sc.hist_steps_as_solve_t(case, obs):
+        for f in oracle_t(c1, o1):
+            fails.append({'sig': f['sig'], 'what': 'step %d of a history (%s on a %s span, after %s): %s'
+                          % (k, case['calls'][k]['api'], case['span_type'], [x['api'] for x in case['calls'][:k]], f['what'])})
+    return fails
 
 
 def as_solve_t(case, position):
@@ -309,6 +334,8 @@ def oracle_t(case, obs):
 
 
 def nontrivial(case, obs):
+    if case.get('kind') == 'hist':
+        return len(obs['passvecs']) >= 2
     if case.get('kind') == 'sp' and obs['out'][:2] == ['raise', 'KeyError']:
         return True
     m = len(obs['passvecs'])
@@ -317,6 +344,8 @@ def nontrivial(case, obs):
 
 
 def bucket(case, obs):
+    if case.get('kind') == 'hist':
+        return 'hist/%d calls/%s' % (len(case['calls']), ''.join(sorted(set(obs['status']))))
     o = case['opts']
     if case.get('kind') == 'sp':
         out = obs['out']
@@ -334,6 +363,13 @@ def bucket(case, obs):
 
 def shrink_candidates(case):
     if case.get('kind') == 'sp':
+        return
+    if case.get('kind') == 'hist':
+        for i in reversed(range(len(case['calls']))):
+            if len(case['calls']) > 1:
+                c = copy.deepcopy(case)
+                del c['calls'][i]
+                yield c
         return
     ps = list(case['scripts'].items())
     for key, sc_ in ps:
